@@ -256,7 +256,8 @@ def modifyVelocities (vKin vRng : Variant) (s : Setup) (src : Frame) (sysEkin : 
 `System.copy` is `copy.copy(self)`: a *shallow* copy — a new object whose attributes hold the
 same references.  `modify_velocities` only *rebinds* `config` and `ekin` of the object it is
 given and writes two files in the engine's `exe_dir` (`conf.<ext>` by `dump_frame` and
-`genvel.<ext>`); `prepare_shooting_point` then rebinds `order`. -/
+`genvel.<ext>`); `calculate_order` rebinds `pos`, `vel`, `box` of the copy to freshly read
+arrays and `prepare_shooting_point` rebinds `order`.  Nothing is mutated in place. -/
 
 structure Sys where
   config : Nat × Option Nat   -- (file id, frame index)
@@ -327,10 +328,19 @@ def prepareShootingPoint (vKin vRng : Variant) (s : Setup) (h : Heap) (a : Nat)
     | .ok (h2, fr) =>
       let r := modifyVelocities vKin vRng s fr sp.ekin zm sig z
       let h3 := h2.writeFile genvelFile [r.frame]
-      -- system.config = (conf_out, 0); system.ekin = kin_new; shpt_copy.order = orderp
+      -- system.config = (conf_out, 0); system.ekin = kin_new
+      -- orderp = engine.calculate_order(shpt_copy): reads genvel back and *rebinds* pos, vel
+      -- (negated when vel_rev) and, when the file has one, box on the copy; then
+      -- shpt_copy.order = orderp
       let o := h3.objs.length
-      let sp' : Sys := { sp with config := (genvelFile, some 0), ekin := some r.kinNew, order := o }
-      let h4 : Heap := { h3 with systems := h.systems ++ [sp'], objs := h3.objs ++ [newOrder] }
+      let velPayload := if sp.velRev then r.frame.vel.flatten.map (fun v => -v) else r.frame.vel.flatten
+      let (boxRef, boxObjs) : Nat × List (List Rat) := match r.frame.box with
+        | some b => (o + 3, [b])
+        | none => (sp.box, [])
+      let sp' : Sys := { sp with config := (genvelFile, some 0), ekin := some r.kinNew, order := o,
+                                 pos := o + 1, vel := o + 2, box := boxRef }
+      let h4 : Heap := { h3 with systems := h.systems ++ [sp'],
+                                 objs := h3.objs ++ ([newOrder, r.frame.pos.flatten, velPayload] ++ boxObjs) }
       .ok { heap := h4, copy := c, dek := r.dek, request := r.request }
 
 end Infretis.Vel
